@@ -291,6 +291,14 @@ func genC12(g *G) {
 		}
 		return strings.Join(ps, ",")
 	}
+	// wrong-length slices that begin like an IPv4-mapped address
+	for _, n := range []int{13, 14, 15, 17, 18, 20, 32} {
+		ip := append([]byte{0, 0, 0, 0, 0, 0, 0, 0, 0, 0, 0xff, 0xff, 1, 2, 3, 4, 5, 6, 7, 8, 9, 10, 11, 12, 13, 14, 15, 16, 17, 18, 19, 20}[:0:0], []byte{0, 0, 0, 0, 0, 0, 0, 0, 0, 0, 0xff, 0xff, 1, 2, 3, 4, 5, 6, 7, 8, 9, 10, 11, 12, 13, 14, 15, 16, 17, 18, 19, 20}[:n]...)
+		for _, f := range fams {
+			g.Emit("ip2a", H(ip), f)
+		}
+		g.Emit("net2p", H(ip), showOpt(cidr(120, 16)), fams[g.Rnd.IntN(3)], probesFor(ip[:min(len(ip), 16)], 120))
+	}
 	// nearly IPv4-mapped: each of the twelve prefix bytes of ::ffff:1.2.3.4 changed in turn
 	for pos := 0; pos < 12; pos++ {
 		for _, v := range []byte{0x00, 0x01, 0x80, 0xfe, 0xff} {
